@@ -46,3 +46,57 @@ Definition agrees (k : case) : bool :=
   | Rejected => (k_code k =? 1)%nat
   | Panic => (k_code k =? 2)%nat
   end.
+
+(** ---- the theorems' hypotheses and the property, evaluated on the model ---- *)
+Fixpoint extract_all (inputs : list cinput) : option (list (list bar)) :=
+  match inputs with
+  | [] => Some []
+  | i :: r => match extract i, extract_all r with
+              | Ok rows, Some rest => Some (rows :: rest)
+              | _, _ => None
+              end
+  end.
+
+Definition case_rows (k : case) : option (list bar) :=
+  match extract_all (map mk_input (k_inputs k)) with Some rs => Some (List.concat rs) | None => None end.
+
+(** guard of C21_candle: every Accum call's columns extract, no timestamp is the zero time.Time *)
+Definition in_domain (k : case) : bool :=
+  match case_rows k with
+  | Some rows => forallb (fun r => negb (b_t r =? zero_time)) rows
+  | None => false
+  end.
+
+Definition bits_eq32 (a b : f32) : bool := f32_bits a =? f32_bits b.
+
+(** boolean mirror of [candle_spec] for the candle [c] of window [w] over all rows *)
+Definition candle_ok (cd : cdur) (rows : list bar) (w : Z) (c : candle) : bool :=
+  let rs := filter (fun r => truncate cd (b_t r) =? w) rows in
+  (c_start c =? w)
+  && negb (match rs with [] => true | _ => false end)
+  && forallb (fun r => c_ot c <=? b_t r) rs
+  && existsb (fun r => (b_t r =? c_ot c) && bits_eq32 (b_o r) (c_o c)) rs
+  && forallb (fun r => b_t r <=? c_ct c) rs
+  && existsb (fun r => (b_t r =? c_ct c) && bits_eq32 (b_c r) (c_c c)) rs
+  && (if f32_nonan (map b_h rs)
+      then existsb (fun r => bits_eq32 (b_h r) (c_h c)) rs && forallb (fun r => f32_le (b_h r) (c_h c)) rs else true)
+  && (if f32_nonan (map b_l rs)
+      then existsb (fun r => bits_eq32 (b_l r) (c_l c)) rs && forallb (fun r => f32_le (c_l c) (b_l r)) rs else true)
+  && (c_n c =? Z.of_nat (List.length rs)).
+
+Fixpoint incrb (l : list Z) : bool :=
+  match l with
+  | a :: ((b :: _) as r) => (a <? b) && incrb r
+  | _ => true
+  end.
+
+Definition model_prop (k : case) : bool :=
+  let cd := cd_of (k_mult k) (k_suffix k) in
+  match case_rows k, model_run k with
+  | Some rows, Ok m =>
+      let out := sort_by_key m in
+      incrb (map fst out)
+      && forallb (fun r => existsb (fun kc => fst kc =? truncate cd (b_t r)) out) rows
+      && forallb (fun kc => candle_ok cd rows (fst kc) (snd kc)) out
+  | _, _ => false
+  end.
